@@ -342,6 +342,7 @@ def run_pool(ctl: Controller, *, T: int, N, fails=(), abandon_after=None, rounds
 
     pool = LP.LazyPool(T)
     res["pool"] = pool
+    old_gens: list = []
     for r in range(1, rounds + 1):
         ctl.round = r
         ctl.nworkers = 0
@@ -352,7 +353,15 @@ def run_pool(ctl: Controller, *, T: int, N, fails=(), abandon_after=None, rounds
             ctl.event("round", None, r)
         try:
             with pool:
-                for y in pool.imap_unordered(func, src):
+                # the result iterator is kept referenced: when the caller abandons it, it is finalised only later, in
+                # the middle of the NEXT use of the pool (`it = pool.imap_unordered(...)`, a few `next(it)`, and the
+                # name is rebound much later) - finalising an abandoned iterator must not disturb the pool
+                gen = pool.imap_unordered(func, src)
+                for y in gen:
+                    if old_gens and len(out["yielded"]) >= 1:
+                        for g_ in old_gens:
+                            g_.close()
+                        old_gens.clear()
                     ctl.gate("yield", None, abstract(y))
                     if isinstance(y, Poison):
                         out["outcome"] = "poisoned"
@@ -364,6 +373,7 @@ def run_pool(ctl: Controller, *, T: int, N, fails=(), abandon_after=None, rounds
                     out["max_ahead"] = max(out["max_ahead"], src.pulled - len(out["yielded"]))
                     if abandon_after is not None and len(out["yielded"]) >= abandon_after:
                         out["outcome"] = "left"
+                        old_gens.append(gen)
                         break
                 else:
                     out["outcome"] = "done"
